@@ -15,7 +15,11 @@ use super::TaskExtra;
 macro_rules! dispatch_event {
     ($fn:ident, $event_name:ident, $(&$item:ident), +) => {
         let handles = $fn.$event_name.clone();
+        #[cfg(acts_verif)]
+        let _verif_unit = crate::verif::InFlight::new();
         Handle::current().spawn(async move {
+            #[cfg(acts_verif)]
+            let _verif_unit = _verif_unit;
             let handlers = handles.read().unwrap();
             for handle in handlers.iter() {
                 (handle)($(&$item),+);
@@ -27,7 +31,11 @@ macro_rules! dispatch_event {
 macro_rules! dispatch_key_event {
     ($fn:ident, $event_name:ident, $(&$item:ident), +) => {
         let handles = $fn.$event_name.clone();
+        #[cfg(acts_verif)]
+        let _verif_unit = crate::verif::InFlight::new();
         Handle::current().spawn(async move {
+            #[cfg(acts_verif)]
+            let _verif_unit = _verif_unit;
             let handlers = handles.read().unwrap();
             for (_, handle) in handlers.iter() {
                 (handle)($(&$item),+);
@@ -149,6 +157,15 @@ impl Emitter {
 
     pub fn emit_proc_event(&self, proc: &Arc<Process>) {
         debug!("emit_proc_event: {}", proc.id());
+        #[cfg(acts_verif)]
+        if crate::verif::log_on() {
+            crate::verif::log(format!(
+                "P {} {} {}",
+                proc.id(),
+                proc.state(),
+                proc.outputs().to_string().replace(' ', "\u{1}")
+            ));
+        }
         let handlers = self.procs.read().unwrap();
         let e = &Event::new(&self.runtime.read().unwrap(), proc);
         for handle in handlers.iter() {
@@ -189,6 +206,15 @@ impl Emitter {
 
     pub fn emit_message(&self, msg: &Message) {
         debug!("emit_message: {:?}", msg);
+        #[cfg(acts_verif)]
+        if crate::verif::log_on() {
+            crate::verif::log(format!(
+                "M {} {} {}",
+                msg.pid,
+                msg.tid,
+                serde_json::to_string(msg).unwrap_or_default().replace(' ', "\u{1}")
+            ));
+        }
         let e = Event::new(&self.runtime.read().unwrap(), msg);
         dispatch_key_event!(self, messages, &e);
     }
